@@ -146,10 +146,55 @@ def findLoop (gs : GS) (label : Option String) : Option Nat :=
   | none => gs.loopstack.head?
   | some l => gs.loopstack.find? (fun id => (gs.loops.getD id {}).label == some l)
 
+mutual
+/-- `mentionsOutsideCallHead` (generator.go, fix C03-01): does the symbol `x` occur in the
+form other than as the head of a call — as a value, a parameter, the target of
+`let`/`def`/`defn`/`set`? (Go walks the raw s-expression; on the elaborated form the same
+positions are: every symbol leaf except call heads, and every binder. A loop label counts
+when it is written without its colon; the elaborated form does not keep the colon, so a
+label equal to the function's name counts here either way.) -/
+def mentions (x : String) : Expr → Bool
+  | .int _ | .bool _ | .str _ | .nilLit | .bad _ => false
+  | .sym y => y == x
+  | .arr es => mentionsList x es
+  | .call (.sym _) args => mentionsList x args
+  | .call f args => mentions x f || mentionsList x args
+  | .begin_ es => mentionsList x es
+  | .def_ y e => y == x || mentions x e
+  | .set_ y e => y == x || mentions x e
+  | .cond arms d => mentionsArms x arms || mentions x d
+  | .and_ es => mentionsList x es
+  | .or_ es => mentionsList x es
+  | .let_ _ bs body => mentionsBinds x bs || mentionsList x body
+  | .newScope es => mentionsList x es
+  | .for_ l i t s body => l == some x || mentions x i || mentions x t || mentions x s || mentionsList x body
+  | .break_ l => l == some x
+  | .continue_ l => l == some x
+  | .fn ps rest body => ps.contains x || rest == some x || mentionsList x body
+  | .defn n ps rest body => n == x || ps.contains x || rest == some x || mentionsList x body
+  | .assign l r => mentions x l || mentions x r
+def mentionsList (x : String) : List Expr → Bool
+  | [] => false
+  | e :: es => mentions x e || mentionsList x es
+def mentionsArms (x : String) : List (Expr × Expr) → Bool
+  | [] => false
+  | (p, b) :: r => mentions x p || mentions x b || mentionsArms x r
+def mentionsBinds (x : String) : List (String × Expr) → Bool
+  | [] => false
+  | (y, e) :: r => y == x || mentions x e || mentionsBinds x r
+end
+
+/-- `rebindsOwnName` (fix C03-01): the function's name occurs in its formals or body other
+than as a call head; `buildSexpFun` then clears `gen.funcname`, so no call in the body is
+compiled as a self tail call. -/
+def rebindsOwnName (name : String) (ps : List String) (rest : Option String) (body : List Expr) : Bool :=
+  !name.isEmpty && (ps.contains name || rest == some name || mentionsList name body)
+
 /-- `buildSexpFun`, first half: the template is registered (for `knownFunctions`) before
-the body is compiled. Returns the template index and the context for the body. -/
-def allocTemplate (isFn : Nat → Bool) (c : Ctx) (name : String) (ps : List String) (rest : Option String) :
-    G (Nat × Ctx) := do
+the body is compiled. Returns the template index and the context for the body.
+`selfTail = false`: `gen.funcname` is cleared (see `rebindsOwnName`). -/
+def allocTemplate (isFn : Nat → Bool) (c : Ctx) (name : String) (ps : List String) (rest : Option String)
+    (selfTail : Bool := true) : G (Nat × Ctx) := do
   let gs ← get
   let t := gs.fns.length
   let params := ps ++ rest.toList
@@ -157,7 +202,7 @@ def allocTemplate (isFn : Nat → Bool) (c : Ctx) (name : String) (ps : List Str
   set { gs with fns := gs.fns ++ [({ name := fname, nargs := ps.length, varargs := rest.isSome, params,
                                       closing := newClosing isFn gs.live } : FnObj)] }
   let known := if name.isEmpty then c.known else (name, t) :: c.known
-  pure (t, ({ tail := true, scopes := 0, funcname := fname, known } : Ctx))
+  pure (t, ({ tail := true, scopes := 0, funcname := if selfTail then fname else "", known } : Ctx))
 
 /-- `buildSexpFun`, second half: prologue, body, epilogue. -/
 def finishTemplate (t : Nat) (b : List Instr) : G Unit :=
@@ -257,7 +302,7 @@ def compile (isFn : Nat → Bool) (c : Ctx) : Expr → G (List Instr × Bool)
     finishTemplate t b
     pure ([.createClosure t], c.tail)
   | .defn name ps rest body => do
-    let (t, cb) ← allocTemplate isFn c name ps rest
+    let (t, cb) ← allocTemplate isFn c name ps rest (!rebindsOwnName name ps rest body)
     let (b, _) ← compileBegin isFn cb body
     finishTemplate t b
     pure ([.createClosure t, .popStackPutEnv name, .push .nil], c.tail)
